@@ -1,6 +1,7 @@
 package backupsim
 
 import (
+	"bytes"
 	"context"
 	"crypto/sha256"
 	"encoding/hex"
@@ -8,6 +9,8 @@ import (
 	"fmt"
 	"io"
 	"reflect"
+	"runtime/debug"
+	"strings"
 	"sync"
 	"testing"
 
@@ -26,7 +29,7 @@ func TestVerifSim(t *testing.T) {
 			"pkg/backup manifest codecs (archive, slot, message-chunk, COMPLETE, repository marker)", "usecase/backup.ListArchives (discoverability)", "klauspost zstd", "OS temp files of the exporter"},
 		Stub: []string{"ArchiveStore (in-memory object map owned by the simulator: torn k-th Put, single-object storage faults)", "FullSlotSource (tape-generated slot cuts and streams)"},
 		Rule: "One run = one 256-slot archive written by the real exporter and publisher onto the simulated store (optionally with a crash in the export phase that is resumed), " +
-			"then a crash-during-publication trial and 3-6 single-storage-fault trials, each on a fresh clone of the published store, each followed by the real verification; " +
+			"then (half of the faulty runs) a crash-during-publication trial with a retry, and 4-8 single-storage-fault trials, each on a fresh clone of the published store, each followed by the real verification; " +
 			"every manifest-class body the traffic produces (pristine, byte-mutated, structurally mutated) is also fed to its decoder with the allocation of the call measured. " +
 			"Non-trivial = the archive was published and verified AND at least one fault trial changed stored bytes.",
 		Assumptions: []string{"a storage fault changes ONE object (or moves/copies one object); the store reports object sizes truthfully",
@@ -185,6 +188,7 @@ type world struct {
 	decCalls  int
 	changed   int
 	bigStream bool
+	identical bool
 }
 
 func errClass(err error) string {
@@ -216,6 +220,7 @@ func (w *world) drawArchive() {
 	w.id = fmt.Sprintf("bk_%04d", tp.Intn(10000))
 	w.root = "backups/" + w.id + "/"
 	identical := tp.Intn(3) == 1 // every plain slot carries the same metadata bytes
+	w.identical = identical
 	nRich := 1 + tp.Intn(5)
 	richSet := map[int]bool{}
 	for i := 0; i < nRich; i++ {
@@ -296,11 +301,15 @@ func (w *world) fail(class, sig, format string, args ...any) {
 }
 
 func runArchive(t *testing.T, r *simkit.Run) {
-	tempOnce.Do(func() { tempDir = t.TempDir() })
+	tempOnce.Do(func() {
+		tempDir = t.TempDir()
+		debug.SetGCPercent(400) // every chunk codec call allocates megabytes; collect less often
+	})
 	tp := r.Tape
 	w := &world{r: r, ctx: context.Background()}
 	noFaults := tp.Intn(4) == 0
 	exportCrash := !noFaults && tp.Intn(6) == 1
+	publishCrash := !noFaults && tp.Intn(2) == 1
 	r.Config["nofaults"] = noFaults
 	r.Config["export_crash"] = exportCrash
 	w.drawArchive()
@@ -314,7 +323,8 @@ func runArchive(t *testing.T, r *simkit.Run) {
 	}
 	r.Steps++
 	// --- crash during publication (on a clone of the exported store) ---
-	if !noFaults {
+	r.Config["publish_crash"] = publishCrash
+	if publishCrash {
 		if !w.publishCrashTrial(store.clone()) {
 			return
 		}
@@ -328,7 +338,7 @@ func runArchive(t *testing.T, r *simkit.Run) {
 		return
 	}
 	if !noFaults {
-		trials := 3 + tp.Intn(4)
+		trials := 4 + tp.Intn(5)
 		for i := 0; i < trials && !r.Failed(); i++ {
 			r.Steps++
 			w.faultTrial(i)
@@ -532,8 +542,9 @@ func (w *world) publishCrashTrial(store *simStore) bool {
 	tp := r.Tape
 	store.puts = 0
 	store.crashAt = 1 + tp.Intn(4)
-	torn := tp.Intn(5) // fraction of the body that reaches the store: 0, 1/4, 1/2, 3/4, all but the last byte
-	store.tornNum, store.tornDen = []int{0, 1, 2, 3, 999}[torn], []int{1, 4, 4, 4, 1000}[torn]
+	torn := tp.Intn(6) // fraction of the body that reaches the store: 0, 1/4, 1/2, 3/4, all but the last byte, all of it
+	store.tornNum, store.tornDen = []int{0, 1, 2, 3, 999, 1}[torn], []int{1, 4, 4, 4, 1000, 1}[torn]
+	store.tornFull = torn == 5
 	man, err := runtimebackup.PublishArchive(w.ctx, store, w.request())
 	if err == nil {
 		// the crash point lay beyond the last Put
@@ -549,7 +560,7 @@ func (w *world) publishCrashTrial(store *simStore) bool {
 	r.Logf("publish crashed at put %d key=%s torn=%d/%d", store.crashAt, store.tornKey, store.tornLen, store.fullLen)
 	store.reboot()
 	_, hasComplete := store.objects[w.root+"COMPLETE"]
-	completeIntact := hasComplete && store.tornKey != w.root+"COMPLETE"
+	completeIntact := hasComplete && (store.tornKey != w.root+"COMPLETE" || store.tornLen == store.fullLen)
 	if completeIntact {
 		r.Probe("crash_after_complete")
 		// COMPLETE is fully written: the archive is published whatever happened to the catalog entry
@@ -595,11 +606,15 @@ func (w *world) publishAndVerify(store *simStore) bool {
 		w.fail("published-archive-not-listed", "healthy", "ListArchives = %+v, %v", list, err)
 		return false
 	}
-	// publication is idempotent
-	again, err := runtimebackup.PublishArchive(w.ctx, store, w.request())
-	if err != nil || !reflect.DeepEqual(again, man) {
-		w.fail("publish-retry-changed-archive", "healthy", "second PublishArchive: %v", err)
-		return false
+	// publication is idempotent (checked in a quarter of the runs: it costs a full verification pass)
+	if r.Tape.Intn(4) == 1 {
+		before := store.fingerprint("")
+		again, err := runtimebackup.PublishArchive(w.ctx, store, w.request())
+		if err != nil || !reflect.DeepEqual(again, man) || !reflect.DeepEqual(before, store.fingerprint("")) {
+			w.fail("publish-retry-changed-archive", "healthy", "second PublishArchive: %v", err)
+			return false
+		}
+		r.Probe("idempotent_republish")
 	}
 	w.pub, w.man = store, man
 	w.origFP = store.fingerprint(w.root)
